@@ -42,6 +42,9 @@ SMALL = ['GF(2)', 'GF(3)', 'GF(5)', 'GF(7)', 'GF(11)', 'GF(13)', 'GF(4)', 'GF(8)
          'GF(16)', 'GF(25)', 'GF(27)']
 BIG = ['GF(256)', 'GF(101)', 'GF(2^61-1)']
 MAX_M = 6
+SAMPLE_CASES = {('GF(7)', 2, 4, 3, (2, 5)), ('GF(8)', 2, 5, 6, (3, 5)), ("GF(9)'", 1, 3, 4, (7,)),
+                ('GF(13)', 3, 6, 12, (0, 1, 12)), ('GF(256)', 2, 3, 0x80, (255, 1)),
+                ('GF(2^61-1)', 2, 5, 2**60, (1, 2**61 - 2))}
 BATCH = 40
 NJOBS = 48
 
@@ -50,9 +53,9 @@ def limit_full(tier):
     return 10_000 if tier == 'thorough' else 130
 
 
-def secrets_of(name):
+def secrets_of(name, tier='thorough'):
     q = R.order(name)
-    if name in SMALL:
+    if name in SMALL and (tier == 'thorough' or q <= 16):
         return list(range(q))
     s = {0, 1, 2, q - 1, q - 2, q // 2, q // 2 + 1}
     if name == 'GF(256)':
@@ -97,7 +100,7 @@ def configs(tier):
 
 def pairs_of(name, t, tier):
     vecs, mode = coef_vectors(name, t, tier)
-    return [(s, c) for c in vecs for s in secrets_of(name)], mode
+    return [(s, c) for c in vecs for s in secrets_of(name, tier)], mode
 
 
 def weight(name, t, m, npairs, tier):
@@ -226,9 +229,12 @@ def check_batch(part, ctx, seam, batch, subsets, x_rs, forms=('raw', 'elem', 'sc
                                        f'{ctx.name} t={t} m={m} secret=field({s}) coefficients={list(c)}: share of party '
                                        f'{i} is {R.code_of(F, sh_e[i][h])}, expected {fvals[h][i + 1]}',
                                        detail(ctx, s, c, form='elem'))
-    if len(part.samples) < 3 and t >= 1 and L == 1 and any(batch[0][1]):
-        part.sample(dict(field=ctx.name, t=t, m=m, secret=batch[0][0], coefficients=list(batch[0][1]),
-                         shares=[codes[i][0] for i in range(m)]))
+    for h, (s, c) in enumerate(batch):
+        if (ctx.name, t, m, s, c) in SAMPLE_CASES:          # fixed cases, so the evidence samples are the same every run
+            S = subsets[0]
+            part.sample(dict(field=ctx.name, t=t, m=m, secret=s, coefficients=list(c), shares=[codes[i][h] for i in range(m)],
+                             subset=list(S), x_r=x_rs[-1], polynomial_at_x_r=fvals[h][x_rs[-1]],
+                             own_lagrange_at_0=R.lagrange_at(F, [i + 1 for i in S], [codes[i][h] for i in S], 0)))
     part.outcomes.add((q % 1000, codes[0][0] % 32))
 
     elem_shares = [[field(v) for v in row] for row in shares] if 'elem' in forms else None
@@ -274,9 +280,6 @@ def check_batch(part, ctx, seam, batch, subsets, x_rs, forms=('raw', 'elem', 'sc
                                        f'{g}, independent Lagrange gives {expect[r][h]}' +
                                        (f' (x_rs={list(x_rs)})' if width > 1 else ''),
                                        dict(detail(ctx, s, c, S, x_r, form), x_rs=list(x_rs), at=x_r))
-                    elif len(part.samples) < 6 and t >= 1 and x_r > m and len(S) == t + 1 and any(batch[h][1]) and h == L - 1:
-                        part.sample(dict(field=ctx.name, t=t, m=m, secret=batch[h][0], coefficients=list(batch[h][1]),
-                                         subset=list(S), shares=[yc[h] for yc in ycodes], x_r=x_r, recombined=g, form=form))
             part.outcomes.add((q % 1000, R.code_of(F, got[0][0]) % 32))
         if 'scalar' in forms:
             # x_rs not a list: default argument (0) and one rotating scalar point
